@@ -13,14 +13,14 @@ from ..oracle import spectrum as O
 
 LEVEL = "exploration"
 NEEDS = ["harness", "cli"]
-RULE = ("L: ALL shapes with 1-3 axes and lengths 1-7 plus a seeded sample (quick) / all (thorough) 4-axis shapes with lengths 1-7, "
+RULE = ("L: ALL shapes with 1-3 axes and lengths 1-7 plus a seeded sample (quick) / all (thorough) 4-axis shapes with lengths 1-7, plus spectra beyond 2^16 entries / total allele count (70001, 131073, 300x300, 2x65537, 41^3, ...), "
         "each with random signed-integer/dyadic vectors and all four fills {nan, 0, -1, inf}; laws with fill 0: mass, "
         "fold(fold(x)) == fold(x), fold(mirror(x)) == fold(x); random doubles with a 1-ulp allowance on the diagonal; special values "
-        "(nan/inf cells). C: `sfs fold --fill` on text and npy input. Non-trivial: >=2 entries and non-constant data; distinct = "
+        "(nan/inf cells). C: `sfs fold --fill` on text and npy input; `-o FILE` with the path absent / empty / holding a longer earlier result / longer garbage / being the input must leave the bytes a pipe receives. Non-trivial: >=2 entries and non-constant data; distinct = "
         "digest(shape, data, fill).")
 ASSUMPTIONS = ["dyadic data with few bits: sums and halves are exact in f64, so equality is exact",
                "never ramps only: ramps are mirror-antisymmetric and would hide partner mistakes"]
-FLOORS = {"quick": {"evaluations": 4000, "distinct_nontrivial": 3000, "counts": {"L_folds": 4000, "C_runs": 90}},
+FLOORS = {"quick": {"evaluations": 4000, "distinct_nontrivial": 3000, "counts": {"L_folds": 4000, "C_runs": 90, "L_big_spectra": 4}},
           "thorough": {"evaluations": 60000, "distinct_nontrivial": 50000, "counts": {"L_folds": 60000, "C_runs": 2500}}}
 NSHARD = 32
 FILLS = {"nan": float("nan"), "zero": 0.0, "minus-one": -1.0, "inf": float("inf")}
@@ -40,7 +40,12 @@ def plan(tier, seed):
     shapes = shapes_for(tier, seed)
     shapes.sort(key=lambda s: -O.prod(s))
     reps = 2 if tier == "quick" else 48
-    return [{"name": "s%d" % i, "i": i, "shapes": shapes[i::NSHARD], "reps": reps, "c": 4 if tier == "quick" else 300} for i in range(NSHARD)]
+    plans = [{"name": "s%d" % i, "i": i, "shapes": shapes[i::NSHARD], "reps": reps, "c": 4 if tier == "quick" else 300} for i in range(NSHARD)]
+    # beyond the grid: spectra whose total allele count or number of entries exceeds 2^16 (very large single samples, two large populations)
+    big = [[70001], [300, 300], [65537], [131073], [2, 65537], [41, 41, 41], [65536], [257, 257]]
+    for k, shape in enumerate(big if tier != "quick" else big[seed % 2::2]):
+        plans[(k * 5 + seed) % NSHARD]["shapes"] = plans[(k * 5 + seed) % NSHARD]["shapes"] + [shape]
+    return plans
 
 
 def same(a_hex, expected):
@@ -61,9 +66,12 @@ def check_L(S, p):
     else:
         for si, shape in enumerate(p["shapes"]):
             n = O.prod(shape)
-            for rep in range(p["reps"]):
+            for rep in range(p["reps"] if n < 60000 else 1):
                 rng = rng_for(seed, "c05", p["name"], si, rep)
                 kind = rng.choice(["signed", "dyadic", "int", "sparse", "real", "special"])
+                if n >= 60000:
+                    kind = rng.choice(["signed", "int"])
+                    S.count("L_big_spectra")
                 data = GS.values(rng, n, kind)
                 for fname in FILLS:
                     cases.append({"shape": shape, "data": GS.hexes(data), "fill": fname, "kind": kind})
@@ -179,6 +187,9 @@ def check_C(S, p):
                     bad.append((j, tok, str(e)))
             if bad:
                 S.viol("C05:cli-value", "[C fold --fill %s on %r] (flat, printed, expected) %r" % (fname, shape, bad[:5]), wit)
+        if i % 2 == 0:
+            from ..engines import outpath
+            outpath.check_file_equals_pipe(S, "C05:file-vs-pipe", "C fold on %r" % shape, rng, args, inp)
         S.case(key=digest([shape, data, fname, "C"]), nontrivial=O.prod(shape) >= 2)
         if i == 0 and p.get("i") == 1:
             S.sample({"level": "C", "argv": r.argv, "input": inp[:200].decode("latin1"), "stdout": r.out.decode()[:300]})
